@@ -201,7 +201,7 @@ def parse_inputs(ty, base, rng, quick):
 
 
 def gen(tier, rng):
-    quick = tier == "quick"
+    quick = tier in ("quick", "search")     # "search" = another seed of the quick distribution
     out = []
     allbases = list(range(2, 37))
     fullbases = [2, 3, 8, 10, 16, 36]
@@ -213,11 +213,18 @@ def gen(tier, rng):
             out.append(f"to_chars {ty} {b} {n} {v}")
             out.append(f"to_chars_buf {ty} {b} {rng.choice([0, max(0, n - 1), n + 2])} {v}")
             return
-        lens = range(0, n + 3) if all_lens else sorted({0, max(0, n - 1), n, n + 1})
+        if all_lens:
+            lens = range(0, n + 3)
+        elif quick:
+            lens = sorted({max(0, n - 1), n} | ({0} if rng.random() < .15 else set()) | ({n + 1} if rng.random() < .15 else set()))
+        else:
+            lens = sorted({0, max(0, n - 1), n, n + 1})
         for ln in lens:
             out.append(f"to_chars {ty} {b} {ln} {v}")
-        out.append(f"to_chars_buf {ty} {b} {n + 2} {v}")
-        out.append(f"to_chars_buf {ty} {b} {max(0, n - 1)} {v}")
+        if not quick or rng.random() < .5:
+            out.append(f"to_chars_buf {ty} {b} {n + 2} {v}")
+        if not quick or rng.random() < .5:
+            out.append(f"to_chars_buf {ty} {b} {max(0, n - 1)} {v}")
 
     # ---- formatting: 8-bit exhaustive
     for ty in ("c", "sc", "uc"):
@@ -271,7 +278,7 @@ def gen(tier, rng):
                         pairs.add((v, b))
         for (v, b) in sorted(pairs):
             wide = TYPES[ty][0] == 64
-            if quick and wide and rng.random() < (.8 if ty in ("l", "ul") else .4):
+            if quick and wide and rng.random() < (.9 if ty in ("l", "ul") else .75):
                 continue
             fmt_cases(ty, v, b, rng.random() < (.1 if quick else .3), lean=quick and wide and rng.random() < .8)
             out.append(f"roundtrip {ty} {b} {v}")
@@ -281,7 +288,10 @@ def gen(tier, rng):
         for b in allbases:
             for v in (lo, lo + 1, -1, 0, 1, hi - 1, hi):
                 if lo <= v <= hi:
-                    fmt_cases(ty, v, b, not (quick and TYPES[ty][0] == 64 and b not in (2, 10, 36)))
+                    wide = quick and TYPES[ty][0] == 64
+                    if wide and ty in ("l", "ul") and b not in (2, 10, 16, 36):
+                        continue
+                    fmt_cases(ty, v, b, not (wide and b not in (10, 36)), lean=wide and b not in (10, 36))
                     out.append(f"roundtrip {ty} {b} {v}")
     # ---- from_integer (etl API, with and without terminator)
     for ty in ("sc", "uc", "s", "i", "u", "ll", "ull"):
